@@ -13,6 +13,10 @@ CLAIMED = {
    "Lean 4 theorems over EXACT rational arithmetic (input = ±num/den, which every float64 is): value_within (|printed − |dec|| ≤ ½·10⁻⁴ minute), minutes_lt_60, degrees_le (≤ 90/180, equal only with zero minutes), lat_shape/lon_shape (DD-MM.MMMMH / DDD-MM.MMMMH with digit fields), printed_value, hemisphere (dec ≠ 0), hemisphere_zero_blank (proved negative = the known finding), course_format (0..360 → three digits + T/M, 360 ↦ 000), course_out_of_range, optional_iff_set. Tie: correspondence of the real decToMinDec/NewCourse/PosReport.Message against the Lean driver on a dense grid, the 20 neighbouring doubles of every whole degree/minute, the carry region and rounding-resolution grid; an independent exact-rational oracle judges the real output.",
    "partial w.r.t. IEEE-754: the float multiply |dec|*600000 and fmt %07.4f are outside Lean's kernel (Float is opaque); the model is exact arithmetic and inputs within 1e-6 of a rounding tie are judged by the oracle only (counted in evidence); time.Format and %f of SPEED are stdlib parameters; trusted: Lean kernel, harness, driver shell",
    "Lean 4 proof over exact-rational model + differential correspondence on dense float grid", "5.20"),
+ "C18": ("proof",
+   "Lean 4 theorems about the model of StringToBody (bufio.ScanLines tokens, wrapLen, CRLF, go-charset ISO-8859-1 translation), for ALL texts whose characters are ≤ U+00FF and lines of ANY length: lines_crlf_le_1000 (the body is a concatenation of LF-free lines of ≤ 998 bytes each followed by CRLF), body_preserves_text (removing CR/LF from stored body and from the translated input gives identical bytes), representable_covered (every Latin-1 text meets the hypothesis), kernel-evaluated witness for the multi-byte wrap. Tie: correspondence of the real StringToBody/SetBody with the Lean driver on boundary line lengths (998, 1996, 64 KiB, 200-700 KB), 2-byte characters at every offset 990..1000, random documents and a malformed stream; an independent Go oracle judges the real output.",
+   "bufio.Scanner, go-charset's code-page translator and utf8.DecodeRune are modelled (Std/Utf8.lean, Msg/Body.lean) and differential-checked, not verified; Body header/BodySize equality is checked by the oracle on the real code only; trusted: Lean kernel, harness, driver shell",
+   "Lean 4 proof over hand-written model + differential correspondence", "5.18"),
 }
 PENDING_REASON = "check not yet built in this session (construction order DESIGN.md §7); not claimed until its model, theorems and correspondence run exist"
 
